@@ -789,7 +789,9 @@ class Buffer:
         Delete specified number of characters and Return the deleted text.
         """
         if self.cursor_position < len(self.text):
-            deleted = self.document.text_after_cursor[:count]
+            # Never delete for a negative count. (A negative slice end would
+            # be interpreted relative to the end of the string.)
+            deleted = self.document.text_after_cursor[: max(0, count)]
             self.text = (
                 self.text[: self.cursor_position]
                 + self.text[self.cursor_position + len(deleted) :]
